@@ -2,10 +2,11 @@
 
      char msg_buf[MSG_BUF_SIZE] = { 0 };
      msg_len  = snprintf (msg_buf,           msg_prefix_limit,       "%s:%d: %s: ", file, line, type);
+     msg_len  = msg_len_after_prefix msg_len;          (an optional clamp, identity if absent)
      msg_len += vsnprintf(msg_buf + msg_len, msg_body_limit msg_len, format, args);
 
-   MSG_BUF_SIZE, msg_prefix_limit and msg_body_limit are regenerated from the source text on
-   every run (Gen/FrontConsts.v).  The model abstracts the two formatted texts to their
+   MSG_BUF_SIZE, msg_prefix_limit, msg_len_after_prefix and msg_body_limit are regenerated from
+   the source text on every run (Gen/FrontConsts.v).  The model abstracts the two formatted texts to their
    lengths: p = length of the prefix "file:line: type: ", b = length of the formatted body
    (both without the terminating NUL); these are also what snprintf/vsnprintf return.
 
@@ -26,11 +27,12 @@ Definition snprintf_extent (n w : Z) : Z := if n =? 0 then 0 else Z.min w (n - 1
 
 (* the two half-open byte ranges, as offsets into msg_buf, written by print_msg *)
 Definition prefix_extent (p : Z) : Z := snprintf_extent (as_size msg_prefix_limit) p.
-Definition body_extent (p b : Z) : Z := snprintf_extent (as_size (msg_body_limit p)) b.
+Definition body_start (p : Z) : Z := msg_len_after_prefix p.
+Definition body_extent (p b : Z) : Z := snprintf_extent (as_size (msg_body_limit (body_start p))) b.
 
 (* offset i of msg_buf is written by one of the two calls *)
 Definition written (p b i : Z) : Prop :=
-  (0 <= i < prefix_extent p) \/ (p <= i < p + body_extent p b).
+  (0 <= i < prefix_extent p) \/ (body_start p <= i < body_start p + body_extent p b).
 
 (* the property: every written offset is inside the array *)
 Definition writes_within_buffer (p b : Z) : Prop :=
@@ -39,12 +41,19 @@ Definition writes_within_buffer (p b : Z) : Prop :=
 (* executable version (extracted; run against ASan's verdict on the real print_msg) *)
 Definition within_buffer (p b : Z) : bool :=
   (prefix_extent p <=? MSG_BUF_SIZE) &&
-  ((body_extent p b =? 0) || (p + body_extent p b <=? MSG_BUF_SIZE)).
+  ((body_extent p b =? 0) || ((0 <=? body_start p) && (body_start p + body_extent p b <=? MSG_BUF_SIZE))).
 
 (* per-prefix criterion: safe for every body length *)
 Definition safe_at (p : Z) : bool :=
+  let n := as_size (msg_body_limit (body_start p)) in
   (prefix_extent p <=? MSG_BUF_SIZE) &&
-  ((as_size (msg_body_limit p) =? 0) || (p + as_size (msg_body_limit p) <=? MSG_BUF_SIZE)).
+  ((n =? 0) || ((0 <=? body_start p) && (body_start p + n <=? MSG_BUF_SIZE))).
+
+(* the same test for another size expression and no clamp: what print_msg amounted to before
+   the commit "bound the diagnostic body by the space left in the message buffer" *)
+Definition within_buffer_with (lim : Z -> Z) (p b : Z) : bool :=
+  let e := snprintf_extent (as_size (lim p)) b in
+  (prefix_extent p <=? MSG_BUF_SIZE) && ((e =? 0) || (p + e <=? MSG_BUF_SIZE)).
 
 Definition zrange (n : Z) : list Z := map Z.of_nat (seq 0 (Z.to_nat n)).
 
@@ -54,7 +63,7 @@ Definition msg_safe_all : bool := forallb safe_at (zrange MSG_BUF_SIZE).
 (* first unsafe prefix length and a body length that overflows with it *)
 Definition msg_overflow_witness : option (Z * Z) :=
   match filter (fun p => negb (safe_at p)) (zrange MSG_BUF_SIZE) with
-  | p :: _ => Some (p, as_size (msg_body_limit p))
+  | p :: _ => Some (p, as_size (msg_body_limit (body_start p)))
   | [] => None
   end.
 
